@@ -555,7 +555,10 @@ class Polygon(Shape2D):
             (np.sum(points[:-1] * points[:-1], axis=1) / 2, [0])
         )
         x, resids, _, _ = np.linalg.lstsq(points, half_point_lengths, None)
-        if len(self.vertices) > 3 and not np.isclose(resids, 0):
+        # The residual has units of length**4, so it is compared to zero
+        # relative to the size of the polygon.
+        size = np.max(np.ptp(self.vertices, axis=0))
+        if len(self.vertices) > 3 and not np.isclose(resids / size**4, 0):
             raise RuntimeError("No circumcircle for this polygon.")
 
         return Circle(np.linalg.norm(x), x + self.vertices[0])
@@ -621,7 +624,11 @@ class Polygon(Shape2D):
         )
 
         x, resids, _, _ = np.linalg.lstsq(a, b, None)
-        if len(self.vertices) > 4 and not np.isclose(resids, 0):
+        # There are num_vertices + 1 equations for 4 unknowns, so every polygon
+        # with more than 3 vertices is overdetermined. The residual has units
+        # of length**2 and is compared to zero relative to the polygon's size.
+        size = np.max(np.ptp(self.vertices, axis=0))
+        if len(self.vertices) > 3 and not np.isclose(resids / size**2, 0):
             raise RuntimeError("No incircle for this polygon.")
 
         return Circle(x[3], x[:3])
